@@ -267,6 +267,23 @@ def _check_make_args_unique(run: Run, ctx, m) -> None:
         run.check(same_len, "C02.R2", vl, stmt_of(pops[0].node), "as many pops as pushes", f"pushes iterate over {show(n_push)[:80]} but pops over {show(n_pop)[:80]}")
     # fresh names for the first lambda, identity (shadow) for nested ones
     fresh = [c for c in calls_in(vl) if isinstance(c.func, ast.Name) and c.func.id == "arg_name"]
+    if not fresh:
+        # the name source handed to the renamer at construction: arg_name itself or `lambda: arg_name()`
+        init = rc.methods.get("__init__")
+        if init is not None and len(init.pos_params) >= 2:
+            for c in calls_in(vl):
+                if isinstance(c.func, ast.Attribute) and isinstance(c.func.value, ast.Name) and c.func.value.id == vl.pos_params[0] and not c.args:
+                    attr = c.func.attr
+                    src = [n_ for n_ in own_nodes(init) if isinstance(n_, ast.Assign) and len(n_.targets) == 1 and isinstance(n_.targets[0], ast.Attribute) and n_.targets[0].attr == attr and isinstance(n_.value, ast.Name) and n_.value.id in init.pos_params[1:]]
+                    stores_ = [x for f_ in rc.methods.values() for x in own_nodes(f_) if isinstance(x, ast.Attribute) and x.attr == attr and isinstance(x.ctx, ast.Store)]
+                    if len(src) != 1 or len(stores_) != 1:
+                        continue
+                    k_ = init.pos_params.index(src[0].value.id) - 1
+                    for cc in calls_in(mau):
+                        if isinstance(cc.func, ast.Name) and cc.func.id == rc.name and k_ < len(cc.args):
+                            a_ = cc.args[k_]
+                            if (isinstance(a_, ast.Name) and a_.id == "arg_name") or (isinstance(a_, ast.Lambda) and not a_.args.args and isinstance(a_.body, ast.Call) and isinstance(a_.body.func, ast.Name) and a_.body.func.id == "arg_name" and not a_.body.args):
+                                fresh.append(c)
     run.check(len(fresh) >= 1, "C02.R2", vl, vl.node, "outermost lambda gets arg_name() names", "replace_args no longer draws new names from arg_name()")
     # new arg list built from the mapping's new names
     stores = [n for n in own_nodes(vl) if isinstance(n, ast.Assign) and any(isinstance(t, ast.Attribute) and t.attr == "args" for t in n.targets)]
@@ -274,7 +291,18 @@ def _check_make_args_unique(run: Run, ctx, m) -> None:
     # visit_Name: innermost-first
     src = ast.unparse(vn.node)
     loops = [n for n in own_nodes(vn) if isinstance(n, ast.For)]
-    ok_rev = len(loops) == 1 and isinstance(loops[0].iter, ast.Call) and isinstance(loops[0].iter.func, ast.Name) and loops[0].iter.func.id == "reversed"
+    fn0 = ctx.analysis(vn)
+    rt0 = strip_sites(fn0.return_term())
+    stack_attrs = {o.recv[2] for o in ops} if ops else set()
+    vself = ("param", vn.pos_params[0])
+
+    def _is_stack(t):
+        return t[0] == "attr" and t[1] == vself and (not stack_attrs or t[2] in stack_attrs)
+
+    # the mapping is looked up in reversed(stack) - as a loop or as next(<generator over it>) - and nowhere in stack order
+    rev = contains(rt0, lambda s_: s_[0] == "app" and s_[1] == ("global", "builtins.reversed") and len(s_[2]) == 1 and _is_stack(s_[2][0]))
+    fwd = contains(rt0, lambda s_: s_[0] == "elem" and _is_stack(s_[1])) or contains(rt0, lambda s_: s_[0] == "comp" and any(_is_stack(g_[0]) for g_ in s_[3]))
+    ok_rev = rev and not fwd
     run.check(ok_rev, "C02.R2", vn, loops[0] if loops else vn.node, "replace_args.visit_Name searches the stack innermost-first", "renaming lookup is not innermost-first: an inner lambda re-using an outer name is renamed with the outer mapping")
     fn = ctx.analysis(vn)
     rt = strip_sites(fn.return_term())
